@@ -176,6 +176,8 @@ ApplyStep(r, m) ==
           /\ BadIf({<<"replica-precommits-tx-no-primary-created", PrecommitG(r, m.id, m.alh, m.prev)>>})
   /\ UNCHANGED <<allow, rs, lastTx, running, pc, ans, lost, nextAlh, nfail, nrestart>>
 
+ApplyAny(r) == \E m \in queue[r] : ApplyStep(r, m)
+
 -----------------------------------------------------------------------------
 LoseStep(p) ==
   /\ role[p] = "primary" /\ ~lost[p] /\ nfail < MaxFail
@@ -216,7 +218,7 @@ RestartStep(r) ==
 MCNext ==
   \/ \E n \in Nodes : ClientWrite(n) \/ SyncStep(n) \/ CommitStep(n) \/ ReportStep(n) \/ PrimaryServe(n) \/ HandleAnswer(n)
                        \/ LoseStep(n) \/ PromoteStep(n) \/ RestartStep(n)
-  \/ \E r \in Nodes : \E m \in queue[r] : ApplyStep(r, m)
+  \/ \E r \in Nodes : ApplyAny(r)
   \/ \E r, p \in Nodes : SwitchStep(r, p) \/ RerouteStep(r, p)
 MCSpec == MCInit /\ [][MCNext]_mcvars
 
